@@ -191,60 +191,127 @@ def case_of_line(cases, line):
     return ans
 
 
+SHARD_LINES = 250000      # trace records per TLC run; larger traces are split at case-group boundaries
+
+
+def shard_obs_trace(trace, cases):
+    """Splits a large XtObs trace into pieces of about SHARD_LINES records, cutting only where a new
+    case starts whose input differs from the previous case's (cases that share a C02 key stay together).
+    Returns [(path, cases-with-local-line-numbers)]."""
+    if not cases or cases[-1]["line"] < SHARD_LINES * 1.5:
+        return [(trace, cases)]
+
+    def group(c):
+        calls = c["case"].get("calls", [])
+        return (len(calls), calls[0].get("hex") if calls else None, c["case"].get("key_text"))
+    cuts = [0]
+    last = 1
+    for j in range(1, len(cases)):
+        if cases[j]["line"] - last >= SHARD_LINES and group(cases[j]) != group(cases[j - 1]):
+            cuts.append(j)
+            last = cases[j]["line"]
+    bounds = [(cuts[k], cuts[k + 1] if k + 1 < len(cuts) else len(cases)) for k in range(len(cuts))]
+    shards = []
+    outs = []
+    for k, (a, b) in enumerate(bounds):
+        path = "%s.shard%d" % (trace, k)
+        first = cases[a]["line"]
+        local = []
+        for c in cases[a:b]:
+            c2 = dict(c)
+            c2["line"] = c["line"] - first + 1
+            local.append(c2)
+        with open(path + ".idx", "w") as f:
+            for c in local:
+                f.write(json.dumps(c) + "\n")
+        shards.append((path, local))
+        outs.append((first, cases[b]["line"] if b < len(cases) else None, open(path, "w")))
+    with open(trace) as fin:
+        k = 0
+        for n, line in enumerate(fin, 1):
+            while outs[k][1] is not None and n >= outs[k][1]:
+                k += 1
+            outs[k][2].write(line)
+    for _, _, f in outs:
+        f.close()
+    return shards
+
+
 def validate_obs(run, trace, rules, what, max_rejects=6, spec="Trace_XtObs", devs=None):
     """Validates a recorded XtObs trace with TLC.  A rejected case is reported as a violation,
-    cut out of the trace, and validation continues with the rest."""
+    cut out of the trace, and validation continues with the rest.  Large traces are validated
+    in pieces, several TLC processes side by side."""
     cases = load_index(trace + ".idx")
     listed = sorted(k["key"] for k in common.known_findings() if k["property"] == run.pid and k["key"] in KNOWN_CLASSES)
     env = {"XT_RULES": ",".join(rules), "XT_DEVS": ",".join(devs if devs is not None else listed) or "none"}
-    cur = trace
-    rejects = 0
-    total_cases = len(cases)
-    while True:
-        r = common.validate_trace(spec + ".tla", spec + ".cfg", cur, env=env, tag="%s-%s" % (spec, run.pid))
-        devs_seen = set()
-        for l in r["out"].split("\n"):
-            if l.startswith('<<"DEVIATION"'):
-                devs_seen.add(l.split('"')[3])
-        for d in devs_seen:
-            hit = next((k for k in common.known_findings() if k["property"] == run.pid and k["key"] == d), None)
-            if hit and hit not in run.known_hits:
-                run.known_hits.append(hit)
-        if r["accepted"]:
-            break
-        rejects += 1
-        rj = common.tlc_printed(r["out"], "REJECTJSON")
-        info = json.loads(rj[0]) if rj else {"line": 1, "rec": {}}
-        # map the line of the current (possibly cut) trace back to a case
-        cur_cases = load_index(cur + ".idx")
-        ci = case_of_line(cur_cases, info["line"])
-        case = cur_cases[ci]
-        run.violation("recorded execution is not a behaviour of XtObs under rules %s: record %d %s" % (
-            ",".join(rules), info["line"] - case["line"] + 1, json.dumps(info["rec"])[:400]),
-            {"kind": "xtobs-trace", "rules": rules, "case": case["case"], "rejected_record": info["rec"],
-             "record_in_case": info["line"] - case["line"] + 1})
-        if rejects >= max_rejects:
-            break
-        # cut the case out and go on
-        start = case["line"]
-        end = cur_cases[ci + 1]["line"] if ci + 1 < len(cur_cases) else None
-        nxt = trace + ".cut%d" % rejects
-        removed = (end - start) if end else None
-        with open(cur) as fin, open(nxt, "w") as fout:
-            for n, line in enumerate(fin, 1):
-                if n < start or (end is not None and n >= end):
-                    fout.write(line)
-        with open(nxt + ".idx", "w") as f:
-            for j, c in enumerate(cur_cases):
-                if j == ci:
-                    continue
-                c2 = dict(c)
-                if j > ci:
-                    c2["line"] = c["line"] - removed
-                f.write(json.dumps(c2) + "\n")
-        cur = nxt
-    run.add_traces(total_cases, r, what)
-    return rejects
+    shards = shard_obs_trace(trace, cases)
+    state = {"rejects": 0}
+    import threading, concurrent.futures
+    lock = threading.Lock()
+
+    def one(shard):
+        cur, _ = shard
+        base = cur
+        local_rejects = 0
+        while True:
+            r = common.validate_trace(spec + ".tla", spec + ".cfg", cur, env=env, tag="%s-%s-%s" % (spec, run.pid, os.path.basename(base)[-12:]),
+                                      timeout=3600 if len(shards) > 1 else 900)
+            devs_seen = set()
+            for l in r["out"].split("\n"):
+                if l.startswith('<<"DEVIATION"'):
+                    devs_seen.add(l.split('"')[3])
+            with lock:
+                for d in devs_seen:
+                    hit = next((k for k in common.known_findings() if k["property"] == run.pid and k["key"] == d), None)
+                    if hit and hit not in run.known_hits:
+                        run.known_hits.append(hit)
+            if r["accepted"]:
+                return r
+            rj = common.tlc_printed(r["out"], "REJECTJSON")
+            info = json.loads(rj[0]) if rj else {"line": 1, "rec": {}}
+            # map the line of the current (possibly cut) trace back to a case
+            cur_cases = load_index(cur + ".idx")
+            ci = case_of_line(cur_cases, info["line"])
+            case = cur_cases[ci]
+            with lock:
+                state["rejects"] += 1
+                local_rejects += 1
+                if state["rejects"] <= max_rejects:
+                    run.violation("recorded execution is not a behaviour of XtObs under rules %s: record %d %s" % (
+                        ",".join(rules), info["line"] - case["line"] + 1, json.dumps(info["rec"])[:400]),
+                        {"kind": "xtobs-trace", "rules": rules, "case": case["case"], "rejected_record": info["rec"],
+                         "record_in_case": info["line"] - case["line"] + 1})
+                if state["rejects"] >= max_rejects:
+                    return r
+            # cut the case out and go on
+            start = case["line"]
+            end = cur_cases[ci + 1]["line"] if ci + 1 < len(cur_cases) else None
+            nxt = base + ".cut%d" % local_rejects
+            removed = (end - start) if end else None
+            with open(cur) as fin, open(nxt, "w") as fout:
+                for n, line in enumerate(fin, 1):
+                    if n < start or (end is not None and n >= end):
+                        fout.write(line)
+            with open(nxt + ".idx", "w") as f:
+                for j, c in enumerate(cur_cases):
+                    if j == ci:
+                        continue
+                    c2 = dict(c)
+                    if j > ci:
+                        c2["line"] = c["line"] - removed
+                    f.write(json.dumps(c2) + "\n")
+            cur = nxt
+    if len(shards) == 1:
+        results = [one(shards[0])]
+    else:
+        with concurrent.futures.ThreadPoolExecutor(max_workers=6) as ex:
+            results = list(ex.map(one, shards))
+    r = dict(results[0])
+    for k in ("distinct", "states", "wall_s"):
+        r[k] = sum(x.get(k, 0) or 0 for x in results) if k != "wall_s" else max(x.get(k, 0) for x in results)
+    r["matched"] = sum((x.get("matched") or 0) for x in results)
+    run.add_traces(len(cases), r, what + (" (validated in %d pieces)" % len(shards) if len(shards) > 1 else ""))
+    return state["rejects"]
 
 
 def record_obs(run, scenario, count, tag):
@@ -334,6 +401,9 @@ def c08(run):
     run.assumptions += OBS_ASSUME
     pipeline_stage(run)
     obs_stage(run, "toml", _q(run, 600, 10000), ["C08"], "TOML target: every root kind, refusals at every nesting position, 1-3 calls, four sources, slice and reader")
+    # the same rule seen from the command line: one TOML document per invocation, whatever the inputs
+    cli_stage(run, _q(run, "MC_XtCli_c08.cfg", "MC_XtCli_c08_thorough.cfg"), "TOML target on the command line: a second input holding a document is refused, nothing is written for it (TomlOnce)",
+              tty_maxlen=0, file_maxlen=0)
 
 
 def c12(run):
@@ -410,8 +480,8 @@ def c07(run):
 
 # ----------------------------------------------------------------------------- C18 / depth
 
-DEPTH_WINDOWS = {"msgpack": (1024, ["arr", "map", "alt", "key"]), "json": (128, ["arr", "map", "alt"]),
-                 "yaml": (128, ["arr", "map", "alt"]), "toml": (80, ["arr", "map", "alt"])}
+DEPTH_WINDOWS = {"msgpack": (1024, ["arr", "map", "alt", "key", "arr0", "map0"]), "json": (128, ["arr", "map", "alt", "arr0", "map0"]),
+                 "yaml": (128, ["arr", "map", "alt", "arr0"]), "toml": (80, ["arr", "map", "alt"])}
 
 
 def depth_cases(run):
@@ -427,7 +497,9 @@ def depth_cases(run):
                 for to in (["json", "msgpack"] if run.tier == "quick" else ["json", "msgpack", "yaml", "toml"]):
                     if shape == "key" and to != "msgpack":
                         continue        # only MessagePack can write a collection in key position
-                    for frm in ([fmt] if (depth % 2 or run.tier == "quick") else [fmt, "detect"]):
+                    # detection in front of the parse: around every limit, and at every other depth in the thorough tier
+                    near = abs(depth - lim) <= 5 and to == "json"
+                    for frm in ([fmt, "detect"] if (near or (run.tier != "quick" and depth % 2 == 0)) else [fmt]):
                         if frm == "detect" and (fmt == "toml"):
                             continue
                         cases.append({"fmt": fmt, "shape": shape, "depth": depth, "from": frm, "to": to})
@@ -667,7 +739,7 @@ def c04(run):
 
 # ----------------------------------------------------------------------------- XtCli (C13, C14, C15)
 
-def cli_stage(run, cfg, what, tty_maxlen=2, file_maxlen=2, extra_vectors=(), stdin_content=None, failing_stdout=False, required=None):
+def cli_stage(run, cfg, what, tty_maxlen=2, file_maxlen=2, extra_vectors=(), stdin_content=None, failing_stdout=False, required=None, stdin_file=False):
     import clicheck, cli
     root = clicheck.prepare("%s-%s" % (run.pid, run.tier))
     # one directory of files per worker thread (a FIFO operand cannot be shared by concurrent runs)
@@ -706,7 +778,7 @@ def cli_stage(run, cfg, what, tty_maxlen=2, file_maxlen=2, extra_vectors=(), std
                 ins = all_inputs(r, clicheck)
                 def _ok(p, sel):
                     c = r["stdin_content"] if p == "-" else clicheck.FILES[p]
-                    return table[(c, sel, r["to"], "reader" if p == "-" else "slice")]["res"] == "ok"
+                    return table.get((c, sel, r["to"], "reader" if p == "-" else "slice"), {"res": "err"})["res"] == "ok"
                 clean = (len(ins) == len([a for a in r["argv"] if not a.startswith("-") or a == "-"] or ["-"])
                          and all(_ok(p, sel) for p, sel in ins) and len({p for p, _ in ins if p == "-"}) <= 1
                          and [p for p, _ in ins].count("-") <= 1 and (r["to"] != "toml" or len(ins) == 1))
@@ -720,6 +792,8 @@ def cli_stage(run, cfg, what, tty_maxlen=2, file_maxlen=2, extra_vectors=(), std
         jobs.append((r, kind, xt_dbg if n % 2 else xt_rel))
         if kind == "pipe" and len(r["argv"]) <= file_maxlen:
             jobs.append((r, "file", xt_rel if n % 2 else xt_dbg))
+        if stdin_file and kind == "pipe" and r.get("used"):
+            jobs.append((r, "stdinfile", xt_rel if n % 2 else xt_dbg))
 
     def one(job):
         pred, kind, binary = job
@@ -799,8 +873,8 @@ def c14(run):
     run.rule = ("each case = one argument vector over a vocabulary centred on source-format resolution (-f in attached/detached form, extensions in several letter cases, "
                 "multi-dot and hidden names, no or misleading extension, '-' at each position and twice, a directory) x 4 targets; XtCli predicts which source selection "
                 "(flag, extension, detection) each input gets, and stdout must equal the library's output for exactly that selection on the same bytes")
-    cli_stage(run, _q(run, "MC_XtCli_c14.cfg", "MC_XtCli_c14_thorough.cfg"), "source-format resolution order, stdin at most once, stdout = library output", tty_maxlen=0, file_maxlen=3)
-    run.assumptions += ["regular files reach the library as slices (mmap), standard input as a reader"]
+    cli_stage(run, _q(run, "MC_XtCli_c14.cfg", "MC_XtCli_c14_thorough.cfg"), "source-format resolution order, stdin at most once, stdout = library output", tty_maxlen=0, file_maxlen=3, stdin_file=True)
+    run.assumptions += ["regular files named as operands reach the library as slices (mmap); standard input is a reader, also when it is redirected from a regular file; a FIFO operand is a reader"]
     run.exhaustive = True
 
 
@@ -836,6 +910,15 @@ def c16(run):
                 "the real binaries must match; TLC checks the C16 invariants for every number of writes that succeed first")
     cli_stage(run, _q(run, "MC_XtCli_c16.cfg", "MC_XtCli_c16_thorough.cfg"), "write(2) failures on standard output: EPIPE kills silently, other errors are reported",
               stdin_content="chuge", failing_stdout=True)
+    # the failing write(2) falls on every kind of token: outputs in which a separator, resp. a value, is the
+    # byte that overflows the 8 KiB buffer (the serializer itself, not the forwarded value, hits the error)
+    for c in ("calign0", "calign1", "calign2", "calign3"):
+        cfg = os.path.join(common.SPEC, "MC_XtCli_c16_%s.cfg" % c)
+        base = open(os.path.join(common.SPEC, "MC_XtCli_c16.cfg")).read()
+        txt = base.replace('StdinContent = "chuge"', 'StdinContent = "%s"' % c).replace("ArgSet <- Args_Pipe_3", "ArgSet <- Args_Align")
+        open(cfg, "w").write(txt)
+        open(cfg.replace("MC_XtCli_", "Gen_XtCli_"), "w").write(txt.replace("INVARIANT CliInv", "INVARIANT CliInv\nINVARIANT Export"))
+        cli_stage(run, os.path.basename(cfg), "write failures with the 8 KiB buffer boundary on a separator / on a value (%s)" % c, stdin_content=c, failing_stdout=True)
     run.assumptions += ["a closed reader is produced deterministically: the read end is closed before xt starts, or after k bytes while > 64 KiB + 16 KiB of output remain"]
     run.exhaustive = True
 
